@@ -25,6 +25,9 @@ class SigchldHelper:
         self._read_pipe, self._write_pipe = os.pipe()
         os.set_blocking(self._write_pipe, False)
         existing_handler = signal.signal(signal.SIGCHLD, SigchldHelper._handler)
+        # The signal mask is inherited from whatever started Conductor. With
+        # SIGCHLD blocked no exit of a task would ever be noticed.
+        existing_mask = signal.pthread_sigmask(signal.SIG_UNBLOCK, {signal.SIGCHLD})
         # Python-level signal handlers only run between bytecodes. A SIGCHLD that
         # arrives right before `wait()` enters its blocking `os.read()` would
         # otherwise only be handled after that read returns (possibly never).
@@ -38,6 +41,7 @@ class SigchldHelper:
         finally:
             signal.set_wakeup_fd(existing_wakeup_fd)
             signal.signal(signal.SIGCHLD, existing_handler)
+            signal.pthread_sigmask(signal.SIG_SETMASK, existing_mask)
             os.close(self._write_pipe)
             os.close(self._read_pipe)
             self._returncodes.clear()
